@@ -27,26 +27,6 @@ func (a *AdvRefs) Encode(w io.Writer) error {
 		return fmt.Errorf("unsupported protocol version: %d", a.Version)
 	}
 
-	// Find HEAD or use first ref
-	firstName, firstHash := a.firstRef()
-
-	// Write first line: hash SP refname NUL capabilities
-	caps := a.Capabilities.String()
-	if firstName == "" {
-		// No refs: zero-id capabilities^{}
-		firstLine := fmt.Sprintf("%s %s\x00%s\n",
-			plumbing.ZeroHash.String(), "capabilities^{}", caps)
-		if _, err := pktline.WriteString(w, firstLine); err != nil {
-			return err
-		}
-	} else {
-		firstLine := fmt.Sprintf("%s %s\x00%s\n",
-			firstHash.String(), firstName, caps)
-		if _, err := pktline.WriteString(w, firstLine); err != nil {
-			return err
-		}
-	}
-
 	// Build peeled map
 	peeled := make(map[string]plumbing.Hash)
 	for _, ref := range a.References {
@@ -56,22 +36,42 @@ func (a *AdvRefs) Encode(w io.Writer) error {
 		}
 	}
 
-	// Sort non-peeled refs (excluding HEAD which was already written)
+	// Sort non-peeled refs by name, HEAD (if present) first: the first
+	// entry carries the capabilities.
 	sorted := make([]*plumbing.Reference, 0, len(a.References))
 	for _, ref := range a.References {
-		if ref.Name().IsPeeled() || ref.Name().String() == firstName {
+		if ref.Name().IsPeeled() {
 			continue
 		}
 		sorted = append(sorted, ref)
 	}
-	sort.Slice(sorted, func(i, j int) bool {
+	sort.SliceStable(sorted, func(i, j int) bool {
+		if hi, hj := sorted[i].Name() == plumbing.HEAD, sorted[j].Name() == plumbing.HEAD; hi != hj {
+			return hi
+		}
 		return sorted[i].Name() < sorted[j].Name()
 	})
 
-	// Write refs and their peeled versions
-	for _, ref := range sorted {
+	caps := a.Capabilities.String()
+	if len(sorted) == 0 {
+		// No refs: zero-id capabilities^{}
+		firstLine := fmt.Sprintf("%s %s\x00%s\n",
+			plumbing.ZeroHash.String(), "capabilities^{}", caps)
+		if _, err := pktline.WriteString(w, firstLine); err != nil {
+			return err
+		}
+	}
+
+	// Write refs, each followed by its peeled version. The first line is
+	// hash SP refname NUL capabilities.
+	for i, ref := range sorted {
 		name := ref.Name().String()
-		if _, err := pktline.Writef(w, "%s %s\n", ref.Hash().String(), name); err != nil {
+		if i == 0 {
+			firstLine := fmt.Sprintf("%s %s\x00%s\n", ref.Hash().String(), name, caps)
+			if _, err := pktline.WriteString(w, firstLine); err != nil {
+				return err
+			}
+		} else if _, err := pktline.Writef(w, "%s %s\n", ref.Hash().String(), name); err != nil {
 			return err
 		}
 		if hash, ok := peeled[name]; ok {
@@ -96,23 +96,4 @@ func (a *AdvRefs) Encode(w io.Writer) error {
 	}
 
 	return pktline.WriteFlush(w)
-}
-
-// firstRef returns the reference to use as the first line (HEAD or first available).
-func (a *AdvRefs) firstRef() (string, plumbing.Hash) {
-	for _, ref := range a.References {
-		if ref.Name().IsPeeled() {
-			continue
-		}
-		if ref.Name() == plumbing.HEAD {
-			return ref.Name().String(), ref.Hash()
-		}
-	}
-	for _, ref := range a.References {
-		if ref.Name().IsPeeled() {
-			continue
-		}
-		return ref.Name().String(), ref.Hash()
-	}
-	return "", plumbing.ZeroHash
 }
